@@ -84,3 +84,63 @@ def replay_attrs(v, table_row):
 
     walk(root)
     return ("parse(" + repr(doc) + ")", bool(bad), f"internal placeholder character in attribute value: {bad}")
+
+
+# ---------------------------------------------------------------- external link: URL part moved to largs[0] is merged and finalized
+from wikitextprocessor.parser import text_fn
+
+
+def url_args_ok(kids) -> bool:
+    """[url-part ... label]: at the first whitespace the URL node's children become largs[0]; they must already satisfy the
+    string-children invariant (nothing merges or finalizes largs later)"""
+    ctx.start_page("T")
+    ctx.cookies = [("T", ("foo",), False)]
+    root = WikiNode(NodeKind.ROOT, 0)
+    url = WikiNode(NodeKind.URL, 1)
+    root.children.append(url)
+    ctx.parser_stack = [root, url]
+    ctx.pre_parse = False
+    ctx.beginning_of_line = False
+    ctx.wsp_beginning_of_line = False
+    ctx.begline_enabled = True
+    ctx.begline_disable_counter = 0
+    for k in kids:
+        url.children.append(k)
+    text_fn(ctx, " ")
+    if len(url.largs) != 1 or url.children != []:
+        return False
+    prev_str = False
+    for c in url.largs[0]:
+        if isinstance(c, str):
+            if c == "" or prev_str or COOKIE in c or MAGIC_LBRACKET_CHAR in c or MAGIC_RBRACKET_CHAR in c:
+                return False
+            prev_str = True
+        else:
+            prev_str = False
+    return True
+
+
+def replay_url(kids):
+    w = Wtp(quiet=True, quiet_output=True)
+    w.start_page("T")
+    bad = []
+    for doc in ["[http://example.com:8080/path label]", "[http://example.com/{{foo}} label]", "[https://user@host/p t]", "[http://host?q=1 t]"]:
+        root = w.parse(doc)
+
+        def walk(n):
+            if isinstance(n, WikiNode):
+                for lst in n.largs:
+                    prev = False
+                    for c in lst:
+                        if isinstance(c, str):
+                            if prev or c == "" or any(ord(ch) >= 0x100000 for ch in c):
+                                bad.append((doc, lst))
+                            prev = True
+                        else:
+                            prev = False
+                            walk(c)
+                for c in n.children:
+                    walk(c)
+
+        walk(root)
+    return ("parse(" + repr(bad[0][0] if bad else "[http://example.com:8080/path label]") + ")", bool(bad), f"external-link URL argument is not merged/finalized: {bad[:1]}")
